@@ -1,25 +1,38 @@
 """Static evaluation rules (C14, level proof): read-set, mirror identity, antisymmetric side arms,
 odd blend, bound below the mate window, no overflow / in-bounds."""
-from wa.mir import AnchorMissing, ShapeNotRecognised, callee_of, operand_alias
-from wa.expr import Exprs, show_expr, strip_refs, subexprs, root_local
-from wa.cond import dominating_facts, enum_value_on_trace
+from wa.mir import ShapeNotRecognised, callee_of, operand_alias, alias_of, INT_RANGES
+from wa.expr import Exprs, show_expr, strip_refs, subexprs
 from wa.paths import enum_paths
 from wa.pathsym import eval_path, cond_truth
 from wa.linear import linear
 from wa.absint import Intervals
-from wa import callgraph
+from wa import callgraph, loopseg
 
 GE = "evaluation::get_evaluation"
 ALLOWED_EXT = (
     "std::iter::Iterator>::next", "std::iter::IntoIterator>::into_iter", "IntoIterator>::into_iter",
     "Iterator for std::ops::Range<A>>::next",
+    # comparison through references: delegates to the element's PartialEq (a cone member if it is local)
+    "std::cmp::PartialEq<&B> for &A>::eq", "std::cmp::PartialEq<&B> for &A>::ne",
 )
+# total, pure functions of their (primitive integer) arguments: no state, no clock, no panic
+PURE_INT_FNS = ("std::cmp::Ord::min", "std::cmp::Ord::max", "core::cmp::Ord::min", "core::cmp::Ord::max",
+                "std::cmp::min", "std::cmp::max", "core::cmp::min", "core::cmp::max")
+ACC_TYPES = ("i32", "i64", "i128", "isize")   # the overflow argument below is made for >= 32 signed bits
 FLIP = 11   # ranks are rows 2..9: the colour mirror maps row r to 11 - r
+
+
+def _ext_call_ok(t):
+    c = callee_of(t) or ""
+    if any(c.endswith(sfx) for sfx in ALLOWED_EXT) or c.endswith("PartialEq>::eq") or c.endswith("PartialEq>::ne") or c == "std::cmp::PartialEq::ne":
+        return True
+    tys = t.get("arg_tys") or []
+    return c in PURE_INT_FNS and bool(tys) and all(ty in INT_RANGES for ty in tys)
 
 
 def r14_1(ctx):
     """The evaluation reads nothing but the placement and the side to move, and calls nothing
-    but its own table functions and range iteration."""
+    but its own table functions, range iteration and integer min/max."""
     f = ctx.facts
     cg = callgraph.get(f)
     cone = sorted(cg.cone(GE))
@@ -29,35 +42,32 @@ def r14_1(ctx):
     if len(bp) != 1:
         raise ShapeNotRecognised("get_evaluation(board: &BoardState)")
     reads = {}
-    import json
+    is_board = {}
+
+    def board_ptr(l):
+        # the parameter itself or a plain copy of it (e.g. the parameter of an inlined helper)
+        if l not in is_board:
+            r, mode, proj = alias_of(b, l)
+            is_board[l] = (r == bp[0] and mode == "val" and not proj)
+        return is_board[l]
+
+    def walk(x, loc):
+        if isinstance(x, dict):
+            if "local" in x and "proj" in x and isinstance(x["local"], int) and board_ptr(x["local"]):
+                fs = [e["name"] for e in x["proj"] if e["k"] == "field"]
+                if fs:
+                    reads.setdefault(fs[0], loc)
+            for v in x.values():
+                walk(v, loc)
+        elif isinstance(x, list):
+            for v in x:
+                walk(v, loc)
     for loc, st in b.iter_stmts():
-        def walk(x):
-            if isinstance(x, dict):
-                if "local" in x and "proj" in x and x["local"] == bp[0]:
-                    fs = [e["name"] for e in x["proj"] if e["k"] == "field"]
-                    if fs:
-                        reads.setdefault(fs[0], loc)
-                for v in x.values():
-                    walk(v)
-            elif isinstance(x, list):
-                for v in x:
-                    walk(v)
-        walk(st)
+        walk(st, loc)
     for bb in b.normal:
         t = b.term(bb)
-        def walk2(x):
-            if isinstance(x, dict):
-                if "local" in x and "proj" in x and x["local"] == bp[0]:
-                    fs = [e["name"] for e in x["proj"] if e["k"] == "field"]
-                    if fs:
-                        reads.setdefault(fs[0], b.term_loc(bb))
-                for v in x.values():
-                    walk2(v)
-            elif isinstance(x, list):
-                for v in x:
-                    walk2(v)
-        walk2(t.get("args"))
-        walk2(t.get("discr"))
+        walk(t.get("args"), b.term_loc(bb))
+        walk(t.get("discr"), b.term_loc(bb))
     for fld, loc in sorted(reads.items()):
         ctx.ob("get_evaluation:reads:%s" % fld, fld in ("board", "to_move"), b.where(loc),
                "reads BoardState.%s; the evaluation may depend on placement and side to move only" % fld)
@@ -70,10 +80,17 @@ def r14_1(ctx):
                 ctx.ob("get_evaluation:board-escapes:%s" % (callee_of(t) or "?").split("::")[-1], False, b.where(b.term_loc(bb)),
                        "the board is passed on to %s" % callee_of(t))
     for fn in cone:
-        for c in sorted(cg.ext[fn]):
-            ok = any(c.endswith(sfx) for sfx in ALLOWED_EXT) or c.endswith("PartialEq>::eq")
-            ctx.ob("cone:%s:calls:%s" % (fn.split("::")[-1], c.split("::")[-1]), ok, f.body(fn).file,
-                   "`%s` called from the evaluation cone; only table lookups and range iteration are expected (no caches, clocks, globals)" % c)
+        fb = f.body(fn)
+        verdict = {}
+        for bb, t in fb.iter_calls():
+            if any(c and f.has_body(c) for c in (t.get("resolved"), t.get("callee"))):
+                continue
+            c = callee_of(t)
+            if c:
+                verdict[c] = verdict.get(c, True) and _ext_call_ok(t)
+        for c in sorted(set(cg.ext[fn]) | set(verdict)):
+            ctx.ob("cone:%s:calls:%s" % (fn.split("::")[-1], c.split("::")[-1]), verdict.get(c, False), fb.file,
+                   "`%s` called from the evaluation cone; only table lookups, range iteration and integer min/max are expected (no caches, clocks, globals)" % c)
     # and uses no static
     for fn in cone:
         fb = f.body(fn)
@@ -83,12 +100,29 @@ def r14_1(ctx):
 
 
 class Fold:
-    """Recognise get_evaluation as two nested constant Range loops with accumulators `acc += e`."""
+    """Recognise get_evaluation as a fold over the squares of two nested constant `Range` loops.
+
+    The recognition is semantic: the loop nest is cut into its acyclic segments (wa/loopseg.py) and
+    every segment is evaluated symbolically.  What is established (or the shape is rejected):
+      * the nest iterates exactly range(outer) x range(inner): each loop is left only through the
+        `None` edge of its own `Range::next`, and the iterators are touched by nothing else;
+      * the only state that survives an iteration is the loop counters and a set of integer
+        *accumulators*; an accumulator changes only in the innermost body and there by
+        `acc' = acc + c` where the contribution c reads nothing but the square being visited;
+      * every contribution is made under exactly the decisions {square is Full, colour of its piece}:
+        any other condition on such a path (one that reads a running total, the row, ...) is rejected;
+      * per colour trace there is exactly one contributing path.
+    How the source spells this (if-let or match+continue, `acc += e` or via temporaries, a helper
+    returning a tuple, an index computed by a `match` on the colour and passed on) is irrelevant."""
 
     def __init__(self, f):
         self.f = f
         b = self.b = f.body(GE)
-        ex = self.ex = Exprs(b)
+        self.ex = Exprs(b)
+        bp = [i for i in range(1, b.arg_count + 1) if b.local_ty(i) == "&board::BoardState"]
+        if len(bp) != 1:
+            raise ShapeNotRecognised("get_evaluation(board: &BoardState)")
+        self.bp = bp[0]
         loops = b.loops()
         if len(loops) != 2:
             raise ShapeNotRecognised("get_evaluation: expected two nested loops, found %d" % len(loops))
@@ -96,62 +130,324 @@ class Fold:
         self.outer, self.inner = hs
         if not loops[self.inner] < loops[self.outer]:
             raise ShapeNotRecognised("get_evaluation: loops are not nested")
+        self.loops = loops
         self.loop = loops[self.outer]
-        # loop variables: payloads of Range::next with constant ranges
-        self.ranges = {}
-        for h in hs:
-            for x in loops[h]:
-                if b.term(x)["k"] == "switch":
-                    d = ex.switch_discr(x)
-                    if d[0] == "discr" and d[1][0] == "call" and d[1][1].endswith("Range<A>>::next"):
-                        item = ("field", ("downcast", d[1], "Some"), "0")
-                        rng = None
-                        from wa.expr import data_slice
-                        for y in data_slice(ex, strip_refs(d[1][2][0])):
-                            if y[0] == "agg" and y[1].endswith("ops::Range") and all(z[0] == "const" for z in y[3]):
-                                rng = (y[3][0][1], y[3][1][1])
-                        if rng:
-                            self.ranges[item] = rng
-        if len(self.ranges) != 2:
-            raise ShapeNotRecognised("get_evaluation: loop ranges are not two constant ranges: %s" % list(self.ranges.values()))
-        # accumulator updates
-        self.updates = []   # (loc, acc_local, addend expr)
-        rd = b.reaching()
-        for loc, st in b.iter_stmts():
-            if st["k"] != "assign" or st["place"]["proj"] or loc[0] not in self.loop:
-                continue
-            l = st["place"]["local"]
-            if l not in b.names or b.local_ty(l) != "i32":
-                continue
-            e = ex.rvalue(st["rv"], loc)
-            if e[0] == "bin" and e[1] == "Add" and e[2][0] == "var" and e[2][1] == l:
-                self.updates.append((loc, l, e[3]))
-            elif e[0] == "bin" and e[1] == "Add" and e[3][0] == "var" and e[3][1] == l:
-                self.updates.append((loc, l, e[2]))
-            else:
-                raise ShapeNotRecognised("accumulator `%s` updated by `%s` (not acc += e)" % (b.lname(l), show_expr(e, b)[:60]))
-        self.accs = sorted({l for _, l, _ in self.updates})
-        for l in self.accs:
-            inits = [(loc, k) for loc, k in rd.all_sites(l) if loc[0] not in self.loop]
-            for loc, k in inits:
-                e = ex.rvalue(b.stmts(loc[0])[loc[1]]["rv"], loc)
-                if e != ("const", 0):
-                    raise ShapeNotRecognised("accumulator `%s` not initialised to 0" % b.lname(l))
-        # the addend must be free of accumulators
-        for loc, l, e in self.updates:
-            if any(x[0] == "var" and x[1] in self.accs for x in subexprs(e)):
-                raise ShapeNotRecognised("accumulator addend depends on an accumulator")
-        # ... and so must every condition an update is guarded by: a guard that reads a running total
-        # (`if phase < 24 { phase += .. }`) makes the result depend on the order squares are visited,
-        # which the colour mirror reverses
-        from wa.cond import dominating_facts as _df
-        for loc, l, e in self.updates:
-            for d, vs, excl, s, tg in _df(b, ex, loc[0]):
-                if s in self.loop and any(x[0] == "var" and x[1] in self.accs for x in subexprs(d)):
-                    raise ShapeNotRecognised("update of `%s` at %s is guarded by `%s`, which reads a running total: the fold is not order-independent" % (
-                        b.lname(l), b.where(loc), show_expr(d, b)[:60]))
-        # the square being scored
         self.colours = f.enum_variant_by_discr("board::PieceColor")
+        self._segments()
+        self._counters()
+        self._state()
+        self._contributions()
+
+    # -- segments ------------------------------------------------------------------------------------
+    def _header_test(self, cond):
+        """The test a loop header makes, read off the first branch decision of a segment:
+        ('range', iterator local, stays) for `match Range::next(&mut it)`, or
+        ('while', counter local, bound, stays) for `c < K` (also K > c, c <= K-1, c != K is not accepted);
+        `stays` tells whether this segment took the edge into the loop body.  None if unrecognised."""
+        d = strip_refs(cond[0])
+        if d[0] == "discr":
+            e = strip_refs(d[1])
+            if e[0] == "call" and e[1].endswith("Range<A>>::next") and len(e[2]) == 1:
+                it = loopseg.undef_locals(strip_refs(e[2][0]))
+                some = loopseg.variants_on_path([cond], lambda x: True, {0: "None", 1: "Some"})
+                if strip_refs(e[2][0])[0] == "opaque" and len(it) == 1 and len(some) == 1:
+                    return ("range", next(iter(it)), some == {"Some"})
+            return None
+        tr = cond_truth(cond)
+        if d[0] == "bin" and d[1] in ("Lt", "Le", "Gt", "Ge") and tr is not None:
+            op, x, k = d[1], strip_refs(d[2]), strip_refs(d[3])
+            if x[0] == "const":
+                op, x, k = {"Lt": "Gt", "Gt": "Lt", "Le": "Ge", "Ge": "Le"}[op], k, x
+            c = loopseg.undef_locals(x)
+            if x[0] == "opaque" and len(c) == 1 and k[0] == "const" and isinstance(k[1], int) and op in ("Lt", "Le"):
+                return ("while", next(iter(c)), k[1] + (1 if op == "Le" else 0), tr)
+        return None
+
+    def _segments(self):
+        """A: outer header -> inner header, B: inner header -> inner header (one square),
+        C: inner header -> outer header (row finished), X: outer header -> after the nest."""
+        b = self.b
+        cuts = {self.outer, self.inner}
+        self.segs = {"A": [], "B": [], "C": [], "X": []}
+        self.tests = {self.outer: set(), self.inner: set()}
+        self.exit = None
+        for start in (self.outer, self.inner):
+            for blocks, end in loopseg.segments(b, start, cuts, self.loop):
+                env, conds = loopseg.eval_segment(b, blocks, end)
+                ht = self._header_test(conds[0]) if conds else None
+                if ht is None:
+                    raise ShapeNotRecognised("get_evaluation: the loop headed by bb%d does not start with a `Range::next` or `counter < bound` test" % start)
+                self.tests[start].add(ht[:-1])
+                if not ht[-1]:
+                    # the only way out of a loop
+                    want_out = (end is not None and end not in self.loop) if start == self.outer else end == self.outer
+                    if not want_out:
+                        raise ShapeNotRecognised("get_evaluation: leaving a loop does not lead to the enclosing level")
+                    if start == self.outer:
+                        if self.exit not in (None, end):
+                            raise ShapeNotRecognised("get_evaluation: the loop nest has several exits")
+                        self.exit = end
+                    self.segs["X" if start == self.outer else "C"].append((blocks, end, env, conds))
+                else:
+                    if end != self.inner:
+                        raise ShapeNotRecognised("get_evaluation: an iteration at %s leaves its loop early (break/return/continue of the outer loop)" % b.where(b.term_loc(blocks[-1])))
+                    self.segs["A" if start == self.outer else "B"].append((blocks, end, env, conds))
+        if self.exit is None or not self.segs["A"] or not self.segs["B"] or not self.segs["C"]:
+            raise ShapeNotRecognised("get_evaluation: loop nest has no exit or no body")
+
+    # -- the two loop counters ---------------------------------------------------------------------
+    def _counters(self):
+        """Each loop runs its counter over a constant half-open range, one step per iteration:
+          `for x in lo..hi`      the header test is `Range::next(&mut it)`; `it` is initialised once,
+                                 outside the loop, from a constant Range and borrowed by nothing else;
+          `while c < hi {.. c += 1}`  every definition of c outside the loop is the constant lo, every
+                                 segment that closes the loop leaves c + 1 in c, nothing else writes c."""
+        b, ex = self.b, self.ex
+        rd = b.reaching()
+        self.counter = {}     # header -> ('range', iterator local) | ('while', counter local)
+        self.ranges = {}      # 0 (outer) | 1 (inner) -> (lo, hi)
+        self.items = {}       # segment-language expression of a counter value -> 0 | 1
+        for idx, h in enumerate((self.outer, self.inner)):
+            if len(self.tests[h]) != 1:
+                raise ShapeNotRecognised("get_evaluation: the loop headed by bb%d is tested in more than one way" % h)
+            test = next(iter(self.tests[h]))
+            kind, l = test[0], test[1]
+            self.counter[h] = (kind, l)
+            sites = rd.all_sites(l)
+            outside = [(loc, k) for loc, k in sites if loc[0] not in self.loops[h]]
+            inside = [(loc, k) for loc, k in sites if loc[0] in self.loops[h]]
+            if kind == "range":
+                if len(outside) != 1 or outside[0][1] != "whole" or len(inside) != 1 or inside[0][1] != "borrow":
+                    raise ShapeNotRecognised("get_evaluation: loop iterator `%s` is written or borrowed more than once" % b.lname(l))
+                wl = outside[0][0]
+                st = b.stmts(wl[0])
+                e0 = ex.rvalue(st[wl[1]]["rv"], wl) if wl[1] < len(st) else ex.call_expr(b.term(wl[0]), wl)
+                while e0[0] == "call" and e0[1].endswith("IntoIterator>::into_iter") and len(e0[2]) == 1:
+                    e0 = e0[2][0]      # identity on an iterator
+                if not (e0[0] == "agg" and e0[1].endswith("ops::Range") and len(e0[3]) == 2 and all(z[0] == "const" and isinstance(z[1], int) for z in e0[3])):
+                    raise ShapeNotRecognised("get_evaluation: loop range `%s` is not a constant Range" % show_expr(e0, b)[:50])
+                self.ranges[idx] = (e0[3][0][1], e0[3][1][1])
+                nexts = [bb for bb, t in b.iter_calls() if bb in self.loops[h] and (callee_of(t) or "").endswith("Range<A>>::next")
+                         and (operand_alias(b, t["args"][0]) or (None,))[0] == l]
+                if len(nexts) != 1:
+                    raise ShapeNotRecognised("get_evaluation: `%s` is advanced %d times per iteration" % (b.lname(l), len(nexts)))
+            else:
+                los = set()
+                for loc, k in outside:
+                    st = b.stmts(loc[0])
+                    e0 = ex.rvalue(st[loc[1]]["rv"], loc) if (k == "whole" and loc[1] < len(st)) else None
+                    if e0 is None or e0[0] != "const" or not isinstance(e0[1], int):
+                        raise ShapeNotRecognised("get_evaluation: loop counter `%s` does not start at a constant (%s)" % (b.lname(l), b.where(loc)))
+                    los.add(e0[1])
+                if len(los) != 1 or any(k != "whole" for _, k in inside) or b.local_ty(l) not in INT_RANGES:
+                    raise ShapeNotRecognised("get_evaluation: loop counter `%s` has no single constant start" % b.lname(l))
+                me = loopseg.undef(l)
+                closing, elsewhere = (("C",), ("A", "B", "X")) if h == self.outer else (("B",), ("C", "X"))
+                for kk in closing:
+                    for blocks, end, env, conds in self.segs[kk]:
+                        le = linear(env[l]) if l in env else None
+                        if le is None or le[0] != {me: 1} or le[1] != 1:
+                            raise ShapeNotRecognised("get_evaluation: loop counter `%s` is not advanced by exactly one on the path ending at %s" % (b.lname(l), b.where(b.term_loc(blocks[-1]))))
+                for kk in elsewhere:
+                    for blocks, end, env, conds in self.segs[kk]:
+                        if l in env and not (kk == "A" and h == self.inner and env[l] == ("const", next(iter(los)))):
+                            raise ShapeNotRecognised("get_evaluation: loop counter `%s` is written outside its own loop step (%s)" % (b.lname(l), b.where(b.term_loc(blocks[-1]))))
+                if h == self.inner and any(l not in env for blocks, end, env, conds in self.segs["A"]):
+                    raise ShapeNotRecognised("get_evaluation: inner loop counter `%s` is not restarted for every row" % b.lname(l))
+                self.ranges[idx] = (next(iter(los)), test[2])
+                self.items[me] = idx
+        iters = {l for k, l in self.counter.values() if k == "range"}
+        # nothing in the nest is written behind the back of the segment evaluation
+        for l, loc, kind in loopseg.indirect_writes(b, self.loop):
+            root = alias_of(b, l)[0]
+            if root not in iters:
+                raise ShapeNotRecognised("get_evaluation: `%s` is written through a projection or a borrow at %s; the fold is not recognised" % (
+                    b.lname(root), b.where(loc)))
+
+    def _is_item_of(self, v, it):
+        """v == (Range::next(&mut it) as Some).0 in segment language."""
+        return (v[0] == "field" and v[2] == "0" and v[1][0] == "downcast" and v[1][2] == "Some" and v[1][1][0] == "call"
+                and v[1][1][1].endswith("Range<A>>::next") and len(v[1][1][2]) == 1 and strip_refs(v[1][1][2][0]) == loopseg.undef(it))
+
+    # -- what survives an iteration -----------------------------------------------------------------
+    def _state(self):
+        b = self.b
+        assigned = {}
+        reads = set()
+        for kind, segs in self.segs.items():
+            for blocks, end, env, conds in segs:
+                for l, v in env.items():
+                    assigned.setdefault(l, set()).add(kind)
+                    reads |= loopseg.undef_locals(v)
+                for c in conds:
+                    reads |= loopseg.undef_locals(c[0])
+        # the part after the loop
+        self.tail = []
+        for blocks, dec in enum_paths(b, self.ex, start=self.exit):
+            if b.term(blocks[-1])["k"] != "return":
+                continue
+            env, conds = eval_path(b, blocks)
+            self.tail.append((env.get(0), conds))
+            if env.get(0) is not None:
+                reads |= loopseg.undef_locals(env[0])
+            for c in conds:
+                reads |= loopseg.undef_locals(c[0])
+        state = {l for l in assigned if l in reads}
+        # values fixed before the loop nest and read inside it or after it (a copy of the `board`
+        # parameter handed to an inlined helper, a named constant): resolve them by value numbering
+        rd = b.reaching()
+        self.invariant = {}
+        for l in sorted(reads - set(assigned)):
+            sites = rd.all_sites(l)
+            if len(sites) == 1 and sites[0][1] == "whole" and sites[0][0][0] not in self.loop and b.node_dominates(sites[0][0][0], self.outer):
+                v = self.ex.local(l, (self.outer, 0))
+                if strip_refs(v)[0] in ("arg", "const"):
+                    self.invariant[loopseg.undef(l)] = v
+        counters = {l for k, l in self.counter.values()}
+        self.accs = []
+        for l in sorted(state):
+            if l in counters:
+                continue       # checked in _counters
+            vals = {env[l] for blocks, end, env, conds in self.segs["A"] if l in env}
+            if assigned[l] == {"A"} and len(vals) == 1 and self.counter[self.outer][0] == "range" and self._is_item_of(next(iter(vals)), self.counter[self.outer][1]):
+                self.items[loopseg.undef(l)] = 0       # `for row in ..`: the payload of the outer next()
+                continue
+            if assigned[l] != {"B"} or b.local_ty(l) not in ACC_TYPES:
+                raise ShapeNotRecognised("get_evaluation: `%s` carries a value from one iteration to the next but is neither a loop counter nor an accumulator updated once per square" % b.lname(l))
+            self.accs.append(l)
+        # an accumulator starts at 0 and is written nowhere but in the loop body
+        for l in self.accs:
+            for loc, kind in rd.all_sites(l):
+                if loc[0] in self.loop:
+                    continue
+                st = b.stmts(loc[0])
+                if not (kind == "whole" and loc[1] < len(st) and self.ex.rvalue(st[loc[1]]["rv"], loc) == ("const", 0) and b.node_dominates(loc[0], self.outer)):
+                    raise ShapeNotRecognised("accumulator `%s` not initialised to 0, or written outside the loop nest (%s)" % (b.lname(l), b.where(loc)))
+        # and the fold is not bypassed: every normal return comes after the loop nest
+        for r in b.return_blocks():
+            if not b.node_dominates(self.outer, r):
+                raise ShapeNotRecognised("get_evaluation can return at %s without running the fold over the squares" % b.where(b.term_loc(r)))
+        if self.counter[self.inner][0] == "range":
+            for blocks, end, env, conds in self.segs["B"]:
+                nx = strip_refs(strip_refs(conds[0][0])[1])
+                self.items[("field", ("downcast", nx, "Some"), "0")] = 1
+        self.norm = {k: ("item", v) for k, v in self.items.items()}
+        self.norm.update(self.invariant)
+        if self.invariant:
+            self.tail = [(loopseg.subst(res, self.invariant) if res is not None else None,
+                          [(loopseg.subst(c[0], self.invariant),) + tuple(c[1:]) for c in conds]) for res, conds in self.tail]
+
+    # -- what one square contributes, per colour trace -----------------------------------------------
+    def _square_of(self, x):
+        """x == board.board[item_i][item_j] (normalised segment language) -> (i, j) or None."""
+        x = strip_refs(x)
+        if x[0] == "index" and x[2][0] == "item" and x[1][0] == "index" and x[1][2][0] == "item":
+            base = x[1][1]
+            if base[0] == "field" and base[2] == "board" and strip_refs(base[1]) == ("arg", self.bp) and x[2][1] != x[1][2][1]:
+                return (x[1][2][1], x[2][1])
+        return None
+
+    @staticmethod
+    def _square_test(c):
+        """The expression whose `Square` variant a branch decision tests (`match sq`, `if let`,
+        `sq == Square::Empty`), else None."""
+        d0 = strip_refs(c[0])
+        if d0[0] == "discr" and d0[2] == "board::Square":
+            return strip_refs(d0[1])
+        if d0[0] == "bin" and d0[1] in ("Eq", "Ne") and cond_truth(c) is not None:
+            for x, k in ((d0[2], d0[3]), (d0[3], d0[2])):
+                k = strip_refs(k)
+                if k[0] == "agg" and k[1] == "board::Square" and k[2] and not k[3]:
+                    return strip_refs(x)
+        return None
+
+    def _contributions(self):
+        b = self.b
+        self.square = None
+        sq_variants = self.f.enum_variant_by_discr("board::Square")
+        paths = []
+        for blocks, end, env, conds in self.segs["B"]:
+            nconds = [(loopseg.subst(c[0], self.norm),) + tuple(c[1:]) for c in conds[1:]]
+            # the square this iteration looks at: the subject of every `Square` discriminant test
+            holds = set(sq_variants.values())
+            rest = []
+            for c in nconds:
+                subject = self._square_test(c)
+                if subject is not None:
+                    sq = self._square_of(subject)
+                    if sq is None or self.square not in (None, subject):
+                        raise ShapeNotRecognised("get_evaluation: a square other than board[row][col] of the two loop counters is inspected at %s" % b.where(b.term_loc(blocks[0])))
+                    self.square = subject
+                    self.square_idx = sq
+                    holds &= loopseg.variants_on_path([c], lambda x: x == subject, sq_variants)
+                else:
+                    rest.append(c)
+            full = "infeasible" if not holds else (holds == {"Full"})
+            paths.append((blocks, env, rest, full))
+        if self.square is None:
+            raise ShapeNotRecognised("get_evaluation: the loop body does not test the square board[row][col]")
+        piece = ("field", ("downcast", self.square, "Full"), "0")
+        self.colour_expr = ("field", piece, "color")
+        self.kind_expr = ("field", piece, "kind")
+        is_colour = lambda x: x == self.colour_expr
+        self.per_colour = {c: {} for c in self.colours.values()}
+        self.contrib_where = {}
+        n_contrib = {c: 0 for c in self.colours.values()}
+        for blocks, env, rest, full in paths:
+            if full == "infeasible":
+                continue
+            cols = loopseg.variants_on_path(rest, is_colour, self.colours)
+            if not cols:
+                continue
+            extra = [c for c in rest if not loopseg.is_variant_test(c, is_colour)]
+            contrib = {}
+            for l in self.accs:
+                if l not in env:
+                    continue
+                v = loopseg.subst(env[l], self.norm)
+                le = linear(v)
+                me = loopseg.undef(l)
+                if le is None or le[0].get(me) != 1:
+                    raise ShapeNotRecognised("accumulator `%s` updated by `%s` (not acc += e)" % (b.lname(l), show_expr(v, b)[:60]))
+                terms = {t: k for t, k in le[0].items() if t != me}
+                if not terms and le[1] == 0:
+                    continue
+                for t in terms:
+                    bad = loopseg.undef_locals(t)
+                    if bad:
+                        raise ShapeNotRecognised("accumulator addend of `%s` depends on %s, a value carried over from another square" % (
+                            b.lname(l), ", ".join("`%s`" % b.lname(x) for x in sorted(bad))))
+                contrib[l] = (terms, le[1])
+                self.contrib_where.setdefault(l, b.where(self._def_site(blocks, l)))
+            if full is not True and not contrib and not extra:
+                continue            # an empty square: nothing happens
+            if full is not True and contrib:
+                raise ShapeNotRecognised("get_evaluation: a contribution is made at %s without the square being tested to hold a piece" % b.where(b.term_loc(blocks[-1])))
+            for c in extra:
+                bad = loopseg.undef_locals(c[0])
+                if bad & set(self.accs):
+                    l = sorted(bad & set(self.accs))[0]
+                    raise ShapeNotRecognised("update of the fold at %s is guarded by `%s`, which reads a running total (`%s`): the fold is not order-independent" % (
+                        b.where(b.term_loc(blocks[-1])), show_expr(c[0], b)[:60], b.lname(l)))
+                if full is True:
+                    raise ShapeNotRecognised("what a piece contributes depends on `%s`, not only on the square's colour and kind: the per-colour traces are not recognised" % show_expr(c[0], b)[:70])
+            if not contrib:
+                continue
+            for c in cols:
+                n_contrib[c] += 1
+                self.per_colour[c] = contrib
+        for c, n in n_contrib.items():
+            if n != 1:
+                raise ShapeNotRecognised("get_evaluation: a %s piece is scored on %d paths of the loop body (expected exactly one)" % (c, n))
+
+    def _def_site(self, blocks, l):
+        b = self.b
+        site = None
+        for bb in blocks:
+            for i, st in enumerate(b.stmts(bb)):
+                if st["k"] == "assign" and not st["place"]["proj"] and st["place"]["local"] == l:
+                    site = (bb, i)
+        return site or b.term_loc(blocks[-1])
 
 
 def _table_values(f, fn):
@@ -182,138 +478,164 @@ def _table_values(f, fn):
     return out
 
 
+def _call_of_kind(f, t):
+    """t == fn(kind...) for a crate-local function -> (name, return type, args) else None."""
+    t = strip_refs(t)
+    if t[0] == "call" and f.has_body(t[1]):
+        return t[1], f.body(t[1]).local_ty(0), tuple(strip_refs(a) for a in t[2])
+    return None
+
+
+def _classify(f, terms, const):
+    """A contribution is either  T(k)[ri][ci] + V(k)  (T returns a reference to a table, V an i32)
+    or  P(k)  (the phase weight of the piece).  Returns ('table', T, V, ri, ci, kinds) /
+    ('phase', P, kinds) / None."""
+    if const != 0 or any(c != 1 for c in terms.values()):
+        return None
+    ts = list(terms)
+    cells = [t for t in ts if t[0] == "index" and t[1][0] == "index" and _call_of_kind(f, t[1][1])]
+    calls = [t for t in ts if t[0] == "call" and _call_of_kind(f, t)]
+    if len(ts) == 2 and len(cells) == 1 and len(calls) == 1:
+        T = _call_of_kind(f, cells[0][1][1])
+        V = _call_of_kind(f, calls[0])
+        if T[1].startswith("&") and V[1] == "i32" and len(T[2]) == 1 and len(V[2]) == 1:
+            return ("table", T[0], V[0], cells[0][1][2], cells[0][2], (T[2][0], V[2][0]))
+    if len(ts) == 1 and len(calls) == 1:
+        P = _call_of_kind(f, calls[0])
+        if P[1] == "i32" and len(P[2]) == 1:
+            return ("phase", P[0], (P[2][0],))
+    return None
+
+
+MIN_FNS = ("std::cmp::Ord::min", "core::cmp::Ord::min", "std::cmp::min", "core::cmp::min")
+
+
+def _upper_bound(P, facts_true):
+    """Largest value expression P can take: a constant, `min(x, C)`, or x with `x <= C` known on the
+    path (facts_true: list of (op, lhs, rhs) comparisons that hold).  None if unbounded."""
+    P = strip_refs(P)
+    if P[0] == "const" and isinstance(P[1], int):
+        return P[1]
+    best = None
+    if P[0] == "call" and P[1] in MIN_FNS and len(P[2]) == 2:
+        for a in P[2]:
+            u = _upper_bound(a, facts_true)
+            if u is not None:
+                best = u if best is None else min(best, u)
+    for op, lhs, rhs in facts_true:
+        u = None
+        if lhs == P and rhs[0] == "const":
+            u = {"Le": rhs[1], "Lt": rhs[1] - 1, "Eq": rhs[1]}.get(op)
+        elif rhs == P and lhs[0] == "const":
+            u = {"Ge": lhs[1], "Gt": lhs[1] - 1, "Eq": lhs[1]}.get(op)
+        if u is not None:
+            best = u if best is None else min(best, u)
+    return best
+
+
+def _nonneg(P, is_phase_total):
+    """P >= 0: a non-negative constant, a phase total (a sum of non-negative weights, see
+    phase:bounded), or the minimum of such values."""
+    P = strip_refs(P)
+    if P[0] == "const" and isinstance(P[1], int):
+        return P[1] >= 0
+    if is_phase_total(P):
+        return True
+    if P[0] == "call" and P[1] in MIN_FNS and len(P[2]) == 2:
+        return all(_nonneg(a, is_phase_total) for a in P[2])
+    return False
+
+
 def r14_2(ctx):
     """Mirror identity and the rest of the symmetry/bound argument."""
     f = ctx.facts
     fold = Fold(f)
-    b, ex = fold.b, fold.ex
+    b = fold.b
     ctx.note_fn(GE)
-    # classify updates: (phase table fn, value fn, row form, col form) per colour trace
-    rowv = colv = None
-    items = list(fold.ranges)
-    per = {}
-    phase_updates = []
-    colour_expr = None
-    for loc, l, e in fold.updates:
-        calls = [x for x in subexprs(e) if x[0] == "call" and f.has_body(x[1])]
-        names = sorted({c[1] for c in calls})
-        tabs = [c for c in calls if f.body(c[1]).local_ty(0).startswith("&")]
-        vals = [c for c in calls if f.body(c[1]).local_ty(0) == "i32"]
-        idx = [x for x in subexprs(e) if x[0] == "index"]
-        if not tabs:
-            phase_updates.append((loc, l, e, names))
-            continue
-        # e = T(kind)[ri][ci] + V(kind)
-        outer_idx = [x for x in idx if x[1][0] == "index" and strip_refs(x[1][1])[0] == "call" and strip_refs(x[1][1]) in tabs]
-        if len(tabs) != 1 or len(vals) != 1 or len(outer_idx) != 1:
-            raise ShapeNotRecognised("accumulator addend `%s` is not table[row][col] + value" % show_expr(e, b)[:80])
-        ci = outer_idx[0][2]
-        ri = outer_idx[0][1][2]
-        le = linear(e)
-        # the addend must be exactly table cell + value (coefficient 1 each)
-        if le is None or le[1] != 0 or sorted(le[0].values()) != [1, 1]:
-            raise ShapeNotRecognised("accumulator addend `%s` is not a plain sum" % show_expr(e, b)[:80])
-        kinds_arg = {strip_refs(tabs[0][2][0]), strip_refs(vals[0][2][0])}
-        # colour trace of this update
-        trace = None
-        for d, vs, excl, s, tg in dominating_facts(b, ex, loc[0]):
-            if d[0] == "bin" and d[1] == "Eq":
-                for x, k in ((strip_refs(d[2]), strip_refs(d[3])), (strip_refs(d[3]), strip_refs(d[2]))):
-                    if k[0] == "agg" and k[1] == "board::PieceColor" and s in fold.loop:
-                        truth = (vs is None and excl == [0]) or vs == [1]
-                        trace = k[2] if truth else {"White": "Black", "Black": "White"}[k[2]]
-                        colour_expr = x
-        if trace is None:
-            raise ShapeNotRecognised("accumulator update at %s is not on a colour trace" % b.where(loc))
-        per.setdefault(l, []).append({"loc": loc, "trace": trace, "T": tabs[0][1], "V": vals[0][1], "ri": ri, "ci": ci, "same_kind": len(kinds_arg) == 1,
-                                      "kind": next(iter(kinds_arg))})
-    # group accumulators into (phase table) pairs
-    by_T = {}
-    for l, us in per.items():
-        if len(us) != 1:
-            raise ShapeNotRecognised("accumulator `%s` updated at %d sites" % (b.lname(l), len(us)))
-        u = us[0]
-        by_T.setdefault(u["T"], {})[u["trace"]] = (l, u)
-    ctx.ob("fold:shape", len(by_T) == 2 and all(set(v) == {"White", "Black"} for v in by_T.values()), b.file,
+    rank, file_ = fold.square_idx
+    # classify what each accumulator receives on each colour trace
+    by_T = {}        # table fn -> colour -> [(acc, info)]
+    phase = {}       # acc -> colour -> (fn, kinds)
+    kinds_used = []
+    for colour, contrib in sorted(fold.per_colour.items()):
+        for l, (terms, const) in sorted(contrib.items()):
+            cls = _classify(f, terms, const)
+            if cls is None:
+                raise ShapeNotRecognised("accumulator addend of `%s` (`%s`) is neither table[row][col] + value nor a phase weight" % (
+                    b.lname(l), " + ".join(show_expr(t, b)[:50] for t in terms) or str(const)))
+            if cls[0] == "table":
+                _, T, V, ri, ci, kinds = cls
+                by_T.setdefault(T, {}).setdefault(colour, []).append((l, {"V": V, "ri": ri, "ci": ci, "kinds": kinds, "where": fold.contrib_where.get(l, b.file)}))
+                kinds_used += list(kinds)
+            else:
+                phase.setdefault(l, {})[colour] = (cls[1], cls[2])
+                kinds_used += list(cls[2])
+    shape_ok = len(by_T) == 2 and all(set(v) == {"White", "Black"} and all(len(x) == 1 for x in v.values()) for v in by_T.values())
+    acc_of = {}
+    for T, d in by_T.items():
+        for colour, lst in d.items():
+            for l, u in lst:
+                if l in acc_of or l in phase:
+                    shape_ok = False     # one accumulator fed from two (table, colour) traces
+                acc_of[l] = (T, colour)
+    ctx.ob("fold:shape", shape_ok, b.file,
            "evaluation is a fold over %s x %s with accumulators per (phase table, colour): %s" % (
-               list(fold.ranges.values())[0], list(fold.ranges.values())[1], {k.split("::")[-1]: sorted(v) for k, v in by_T.items()}),
+               fold.ranges[0], fold.ranges[1], {k.split("::")[-1]: sorted(v) for k, v in by_T.items()}),
            reason="shape-not-recognised")
-    if not (len(by_T) == 2 and all(set(v) == {"White", "Black"} for v in by_T.values())):
+    if not shape_ok:
         return
-    # square scored = board[row][col] with row, col the two loop items; the piece is read from that square
-    row_item = col_item = None
+    item_name = {("item", rank): "row", ("item", file_): "col"}
     for T, d in sorted(by_T.items()):
-        (lw, uw), (lb, ub) = d["White"], d["Black"]
+        (lw, uw), = d["White"]
+        (lb, ub), = d["Black"]
         short = T.split("::")[-1]
-        ctx.ob("mirror:%s:same-value-function" % short, uw["V"] == ub["V"] and uw["same_kind"] and ub["same_kind"] and uw["kind"] == ub["kind"], b.where(ub["loc"]),
+        same_kind = len(set(uw["kinds"]) | set(ub["kinds"])) == 1
+        ctx.ob("mirror:%s:same-value-function" % short, uw["V"] == ub["V"] and same_kind, ub["where"],
                "both colours add %s(kind)[..][..] + %s(kind) for the kind of the piece on the square (white: %s, black: %s)" % (short, uw["V"].split("::")[-1], uw["V"].split("::")[-1], ub["V"].split("::")[-1]))
         lw_r, lb_r = linear(uw["ri"]), linear(ub["ri"])
         lw_c, lb_c = linear(uw["ci"]), linear(ub["ci"])
         ok_shape = all(x is not None and len(x[0]) == 1 for x in (lw_r, lb_r, lw_c, lb_c))
         if not ok_shape:
-            ctx.ob("mirror:%s:index-forms" % short, False, b.where(ub["loc"]), "table indices are not affine in the loop variables", reason="shape-not-recognised")
+            ctx.ob("mirror:%s:index-forms" % short, False, ub["where"], "table indices are not affine in the loop variables", reason="shape-not-recognised")
             continue
         (rw, aw), = lw_r[0].items()
         (rb, ab), = lb_r[0].items()
         (cw, acw), = lw_c[0].items()
         (cb, acb), = lb_c[0].items()
         bw, bb_ = lw_r[1], lb_r[1]
-        same_vars = rw == rb and cw == cb and rw != cw and rw in fold.ranges and cw in fold.ranges
+        same_vars = rw == rb == ("item", rank) and cw == cb == ("item", file_)
         # black at row r must use what white uses at row FLIP - r:  aw*(FLIP - r) + bw == ab*r + bb
         mirror = same_vars and ab == -aw and bb_ == aw * FLIP + bw
-        ctx.ob("mirror:%s:row-identity" % short, bool(mirror), b.where(ub["loc"]),
-               "white row index %+d*row%+d, black row index %+d*row%+d; the colour mirror maps row r to %d-r, so black must index %+d*row%+d" % (
-                   aw, bw, ab, bb_, FLIP, -aw, aw * FLIP + bw))
-        ctx.ob("mirror:%s:column-identity" % short, same_vars and acw == acb and lw_c[1] == lb_c[1], b.where(ub["loc"]),
-               "column index white %+d*col%+d, black %+d*col%+d (files are not mirrored)" % (acw, lw_c[1], acb, lb_c[1]))
-        row_item, col_item = rw, cw
+        ctx.ob("mirror:%s:row-identity" % short, bool(mirror), ub["where"],
+               "white row index %+d*%s%+d, black row index %+d*%s%+d; the colour mirror maps row r to %d-r, so black must index %+d*row%+d" % (
+                   aw, item_name.get(rw, "?"), bw, ab, item_name.get(rb, "?"), bb_, FLIP, -aw, aw * FLIP + bw))
+        ctx.ob("mirror:%s:column-identity" % short, same_vars and acw == acb and lw_c[1] == lb_c[1], ub["where"],
+               "column index white %+d*%s%+d, black %+d*%s%+d (files are not mirrored)" % (acw, item_name.get(cw, "?"), lw_c[1], acb, item_name.get(cb, "?"), lb_c[1]))
     # the piece scored is the one on board[row][col]
-    if row_item is not None:
-        sq = [x for l, us in per.items() for x in subexprs(us[0]["kind"]) if x[0] == "index"]
-        ok = bool(sq) and all(x[2] == col_item and x[1][0] == "index" and x[1][2] == row_item for x in sq if x[1][0] == "index")
-        ctx.ob("fold:scores-the-square-it-visits", ok, b.file, "the kind/colour used come from board[row][col] of the same loop variables")
-        rr, cr = fold.ranges[row_item], fold.ranges[col_item]
-        ctx.ob("fold:visits-64-squares", rr == (2, 10) and cr == (2, 10), b.file, "rows %s, columns %s" % (rr, cr))
+    ctx.ob("fold:scores-the-square-it-visits", bool(kinds_used) and all(k == fold.kind_expr for k in kinds_used), b.file,
+           "the kind/colour used come from board[row][col] of the same loop variables")
+    rr, cr = fold.ranges[rank], fold.ranges[file_]
+    ctx.ob("fold:visits-64-squares", rr == (2, 10) and cr == (2, 10), b.file, "rows %s, columns %s" % (rr, cr))
     # phase accumulator: colour independent
-    for loc, l, e, names in phase_updates:
-        dep = colour_expr is not None and any(strip_refs(x) == colour_expr for x in subexprs(e))
-        on_trace = any(d[0] == "bin" and d[1] == "Eq" and colour_expr is not None and colour_expr in (strip_refs(d[2]), strip_refs(d[3])) and s in fold.loop
-                       for d, vs, excl, s, tg in dominating_facts(b, ex, loc[0]))
-        ctx.ob("phase:%s:colour-independent" % b.lname(l), not dep and not on_trace, b.where(loc), "`%s += %s` is the same for both colours" % (b.lname(l), show_expr(e, b)[:50]))
-    # ---- tail: side arms and blend (loop-free part after the outer loop)
-    exits = [s for x in fold.loop for s in b.succ.get(x, []) if s not in fold.loop]
-    if len(set(exits)) != 1:
-        raise ShapeNotRecognised("evaluation fold has %d exits" % len(set(exits)))
-    start = exits[0]
-    paths = enum_paths(b, ex, start=start)
-    acc_of = {}
-    for T, d in by_T.items():
-        for colour, (l, u) in d.items():
-            acc_of[l] = (T, colour)
-    phase_accs = sorted({l for _, l, _, _ in phase_updates})
+    for l, d in sorted(phase.items()):
+        ctx.ob("phase:%s:colour-independent" % b.lname(l), set(d) == {"White", "Black"} and d["White"] == d["Black"], fold.contrib_where.get(l, b.file),
+               "`%s` receives %s on the colour traces; it must be the same for both colours" % (
+                   b.lname(l), {c: "%s(kind)" % v[0].split("::")[-1] for c, v in sorted(d.items())}))
+    phase_accs = sorted(phase)
+    # ---- tail: side arms and blend (loop-free part after the loop nest)
+    bp = fold.bp
+    is_side = lambda x: x[0] == "field" and x[2] == "to_move" and strip_refs(x[1]) == ("arg", bp)
+    acc_local = lambda t: int(t[1].split("_")[1]) if (t[0] == "opaque" and str(t[1]).startswith("undef _")) else None
+    is_phase_total = lambda t: acc_local(t) in phase_accs
     results = {}
-    bp = [i for i in range(1, b.arg_count + 1) if b.local_ty(i) == "&board::BoardState"][0]
-    for blocks, dec in paths:
-        if b.term(blocks[-1])["k"] != "return":
-            continue
-        env, conds = eval_path(b, blocks)
-        side = None
-        clamp = None
-        for c in conds:
-            d, tr = c[0], cond_truth(c)
-            if d[0] == "bin" and d[1] == "Eq" and tr is not None:
-                for x, k in ((strip_refs(d[2]), strip_refs(d[3])), (strip_refs(d[3]), strip_refs(d[2]))):
-                    if k[0] == "agg" and k[1] == "board::PieceColor" and x[0] == "field" and x[2] == "to_move":
-                        side = k[2] if tr else {"White": "Black", "Black": "White"}[k[2]]
-            if d[0] == "bin" and d[1] in ("Gt", "Ge", "Lt", "Le") and tr is not None:
-                clamp = (d, tr)
-        results[(side, clamp is not None and clamp[1])] = (env.get(0), clamp)
+    for res, conds in fold.tail:
+        sides = loopseg.variants_on_path(conds, is_side, fold.colours)
+        other = [c for c in conds if not loopseg.is_variant_test(c, is_side)]
+        key = frozenset((c[0], cond_truth(c), tuple(c[1])) for c in other)
+        for s in sorted(sides):
+            results[(s, key)] = (res, other)
     sides = {k[0] for k in results}
     ctx.ob("side-arms:both-present", sides == {"White", "Black"}, b.file, "result computed on traces %s of board.to_move" % sorted(map(str, sides)))
-
-    def undef_accs(e):
-        # in the tail the accumulators are free: PathExprs names them `undef _N`
-        return e
 
     def decompose(res):
         """res = (MG*P + EG*(C - P)) / C -> (MG, EG, P, C) modulo commutativity."""
@@ -341,25 +663,55 @@ def r14_2(ctx):
         return None
 
     forms = {}
-    for (side, clamped), (res, clamp) in sorted(results.items(), key=str):
+    suffix = {}
+    keys = sorted({k[1] for k in results}, key=lambda k: sorted(map(str, k)))
+    for key in keys:
+        any_res = next(results[(s, key)][0] for s in ("White", "Black") if (s, key) in results)
+        dcm = decompose(any_res)
+        sfx = ":clamped" if (dcm is not None and strip_refs(dcm[2])[0] == "const") else ""
+        while sfx in suffix.values():
+            sfx += "'"
+        suffix[key] = sfx
+    for (side, key), (res, other) in sorted(results.items(), key=lambda kv: (kv[0][0], suffix[kv[0][1]])):
         dcm = decompose(res)
-        key = "blend:%s%s" % (side, ":clamped" if clamped else "")
+        k2 = "blend:%s%s" % (side, suffix[key])
         if dcm is None:
-            ctx.ob(key + ":form", False, b.file, "result `%s` is not (mg*p + eg*(C-p)) / C with a truncating division" % show_expr(res, b)[:100], reason="rule-breach")
+            ctx.ob(k2 + ":form", False, b.file, "result `%s` is not (mg*p + eg*(C-p)) / C with a truncating division" % show_expr(res, b)[:100], reason="rule-breach")
             continue
         MG, EG, P, C = dcm
-        forms[(side, clamped)] = (linear(MG), linear(EG), P, C)
-        ctx.ob(key + ":form", True, b.file, "result = (mg*p + eg*(%d-p)) / %d, truncating (odd) division" % (C, C))
+        forms[(side, key)] = (linear(MG), linear(EG), P, C)
+        ctx.ob(k2 + ":form", True, b.file, "result = (mg*p + eg*(%d-p)) / %d, truncating (odd) division" % (C, C))
+        # the weight is a convex one: 0 <= p <= C on this path (else the blend extrapolates and the bound below is void)
+        facts_true = []
+        neg = {"Gt": "Le", "Ge": "Lt", "Lt": "Ge", "Le": "Gt", "Eq": "Ne", "Ne": "Eq"}
+        for c in other:
+            d, tr = strip_refs(c[0]), cond_truth(c)
+            if d[0] == "bin" and d[1] in neg and tr is not None:
+                facts_true.append((d[1] if tr else neg[d[1]], strip_refs(d[2]), strip_refs(d[3])))
+        ub = _upper_bound(P, facts_true)
+        ctx.ob("blend:phase-weight-in-range:%s%s" % (side, suffix[key]), ub is not None and ub <= C and _nonneg(P, is_phase_total), b.file,
+               "phase weight p = %s lies in [0, %d] on this path (upper bound %s): the blend is a convex combination of the two phase scores" % (show_expr(P, b)[:40], C, ub))
+        # every other decision of the tail is a function of the colour-free phase total
+        for c in other:
+            leaves = {x for x in subexprs(c[0]) if x[0] in ("var", "opaque", "arg", "field", "call")}
+            ok = all(is_phase_total(x) or (x[0] == "call" and x[1] in MIN_FNS) for x in leaves)
+            ctx.ob("blend:condition-colour-free:%s%s" % (side, suffix[key]), ok, b.file, "the tail branches on `%s`" % show_expr(c[0], b)[:60])
     # antisymmetry: White forms are the negation of Black forms; phase weight identical
-    for clamped in (False, True):
-        w, k = forms.get(("White", clamped)), forms.get(("Black", clamped))
+    for key in keys:
+        sfx = suffix[key]
+        w, k = forms.get(("White", key)), forms.get(("Black", key))
         if not w or not k:
+            if ("White", key) in results and ("Black", key) in results:
+                continue      # blend form already reported
+            ctx.ob("side-arms:paired%s" % sfx, False, b.file, "a path of the tail exists for only one side to move (conditions %s)" % [show_expr(c[0], b)[:40] for c in key])
             continue
+
         def neg(lf):
             return ({t: -c for t, c in lf[0].items()}, -lf[1]) if lf else None
         ok = w[0] is not None and k[0] is not None and neg(w[0]) == k[0] and neg(w[1]) == k[1] and w[2] == k[2] and w[3] == k[3]
-        ctx.ob("side-arms:antisymmetric%s" % (":clamped" if clamped else ""), bool(ok), b.file,
+        ctx.ob("side-arms:antisymmetric%s" % sfx, bool(ok), b.file,
                "with Black to move both phase scores are the negation of those with White to move, and the phase weight is the same")
+
         # orientation: mg score on the White trace is (white acc - black acc) of the SAME table, eg likewise
         def orient(lf):
             if lf is None or lf[1] != 0 or len(lf[0]) != 2:
@@ -368,12 +720,6 @@ def r14_2(ctx):
             negs = [t for t, c in lf[0].items() if c == -1]
             if len(pos) != 1 or len(negs) != 1:
                 return None
-            def acc_local(t):
-                if t[0] == "opaque" and t[1].startswith("undef _"):
-                    return int(t[1].split("_")[1])
-                if t[0] == "var":
-                    return t[1]
-                return None
             a, c = acc_of.get(acc_local(pos[0])), acc_of.get(acc_local(negs[0]))
             if not a or not c:
                 return None
@@ -381,16 +727,12 @@ def r14_2(ctx):
         for nm, lf in (("mg", w[0]), ("eg", w[1])):
             o = orient(lf)
             ok = o is not None and o[0][0] == o[1][0] and o[0][1] == "White" and o[1][1] == "Black"
-            ctx.ob("side-arms:%s-orientation%s" % (nm, ":clamped" if clamped else ""), bool(ok), b.file,
+            ctx.ob("side-arms:%s-orientation%s" % (nm, sfx), bool(ok), b.file,
                    "with White to move the %s score is (white accumulator - black accumulator) of one table: %s" % (nm, o))
         # phase weight: function of the phase accumulator only
         P = w[2]
         pl = {x for x in subexprs(P) if x[0] in ("var", "opaque", "arg", "field")}
-        def is_phase(t):
-            if t[0] == "opaque" and t[1].startswith("undef _"):
-                return int(t[1].split("_")[1]) in phase_accs
-            return t[0] == "const"
-        ctx.ob("blend:phase-weight-colour-free%s" % (":clamped" if clamped else ""), all(is_phase(t) for t in pl), b.file, "phase weight p = %s" % show_expr(P, b)[:50])
+        ctx.ob("blend:phase-weight-colour-free%s" % sfx, all(is_phase_total(t) or t[0] == "const" for t in pl), b.file, "phase weight p = %s" % show_expr(P, b)[:50])
     # ---- bound
     T_names = sorted(by_T)
     mate = f.const_value("engine::MATE_SCORE")
@@ -398,14 +740,14 @@ def r14_2(ctx):
     bounds = {}
     for T in T_names:
         tv = _table_values(f, T)
-        V = by_T[T]["White"][1]["V"]
+        V = by_T[T]["White"][0][1]["V"]
         vv = _table_values(f, V)
         hi = max(max(max(r) for r in tv[k]) + vv[k] for k in tv)
         lo = min(min(min(r) for r in tv[k]) + vv[k] for k in tv)
         dims = {(len(tv[k]), len(tv[k][0])) for k in tv}
         ctx.ob("tables:%s:8x8" % T.split("::")[-1], dims == {(8, 8)}, b.file, "table shapes %s" % sorted(dims))
         bounds[T] = max(abs(hi), abs(lo))
-    nsq = (fold.ranges[row_item][1] - fold.ranges[row_item][0]) * (fold.ranges[col_item][1] - fold.ranges[col_item][0]) if row_item else 64
+    nsq = (rr[1] - rr[0]) * (cr[1] - cr[0])
     M = max(bounds.values())
     total = nsq * M
     margin = max(15, int(max_depth))
@@ -413,11 +755,10 @@ def r14_2(ctx):
            "|evaluation| <= %d squares x max per-square contribution %d = %d; must stay below MATE_SCORE - %d = %d so that no material score is mistaken for a mate" % (
                nsq, M, total, margin, mate - margin))
     # phase values and overflow
-    phase_fn = [n for _, _, _, names in phase_updates for n in names]
     pmax = 0
-    if phase_fn:
-        pv = _table_values(f, phase_fn[0])
-        pmax = max(pv.values()) * nsq
+    for l, d in sorted(phase.items()):
+        pv = _table_values(f, d[sorted(d)[0]][0])
+        pmax = max(pmax, max(pv.values()) * nsq)
         ctx.ob("phase:bounded", min(pv.values()) >= 0 and pmax < 2**31, b.file, "phase per piece in [%d, %d]" % (min(pv.values()), max(pv.values())))
     C = next(iter(forms.values()))[3] if forms else 24
     worst = 2 * total * max(C, pmax) * 2
@@ -430,12 +771,5 @@ def r14_2(ctx):
             nb += 1
             ok, d = iv.assert_holds(bb)
             ctx.ob("bounds#%d" % nb, ok, b.where(b.term_loc(bb)), d)
-    ctx.floor("bounds checks in get_evaluation", nb, 6)
-    # the clamp: p = min(phase, C)
-    for (side, clamped), (res, clamp) in results.items():
-        if clamp is not None:
-            d, tr = clamp
-            le = (strip_refs(d[2]), strip_refs(d[3]))
-            ok = d[1] in ("Gt", "Ge") and le[1] == ("const", C)
-            ctx.ob("blend:clamp-at-%d" % C, ok, b.file, "phase clamped by `%s`" % show_expr(d, b)[:40], nontrivial=False)
-            break
+    # vacuity guard only: the board read and at least one table read carry a compiler-inserted check
+    ctx.floor("bounds checks in get_evaluation", nb, 2)
